@@ -461,6 +461,21 @@ def step(rig, model, op, D, tag, before):
             bad(f"{kind}/master-frame-format", f"{msg}")
             return
     booted = []
+    # a slave may put a truthful heartbeat (its id, its state as it is after this step) on the bus at
+    # any time - the property pins what the master sends and what the states are, not when a producer
+    # chooses to report; boot-up messages (state 0) are judged below
+    def _truthful(f):
+        return (not f.remote and not f.extended and len(f.data) == 1 and f.data[0] != 0 and
+                any(f.can_id == 0x700 + ids[T] and fits(after["l" + T], {decode_hb(f.data[0])}) for T in nodes)
+                and not any(f.can_id == c for c, _d in want_s))
+    for f in sf:
+        if _truthful(f):
+            # ... and the master that hears it follows
+            for T in nodes:
+                if f.can_id == 0x700 + ids[T]:
+                    e = exp["r" + T]
+                    exp["r" + T] = ({tok(before["r" + T])} if e is SAME else set(e)) | {decode_hb(f.data[0])}
+    sf = [f for f in sf if not _truthful(f)]
     if not _frames_match(sf, want_s):
         ok = False
         if opt_bootup and not want_s:
